@@ -122,6 +122,18 @@ fn main() {
                 Some(t) => format!("schema {}", (reg[i.parse::<usize>().unwrap()].schema)(&t)),
                 None => "badval".into(),
             }),
+            ["xdeser", i, j, val] => Some(match parse(val) {
+                Some(t) => match (reg[i.parse::<usize>().unwrap()].ser)(&t) {
+                    Ok((_, bytes)) => {
+                        let e = &reg[j.parse::<usize>().unwrap()];
+                        let f_line = match e.full { Some(f) => format!("F {}", f(&bytes)), None => "F -".into() };
+                        let e_line = match e.eps { Some(f) => format!("E {}", f(&bytes, 0)), None => "E -".into() };
+                        format!("xdeser | {} | {}", f_line, e_line)
+                    }
+                    Err(s) => format!("xdeser ser-{}", s),
+                },
+                None => "badval".into(),
+            }),
             ["fromhex", i, r, h] => {
                 let e = &reg[i.parse::<usize>().unwrap()];
                 let bytes = unhex(h);
